@@ -279,7 +279,7 @@ def setChild (p new : Nat) (i : Int) : Op Unit := fun h =>
 /-- `remove_by_name(name, index)` -/
 def removeByName (p : Nat) (name : String) (i : Int) : Op Unit := fun h =>
   match childAt h p name i with
-  | none => (h, .error .crash)          -- `remove(None)`: AttributeError
+  | none => (h, .error .childNotValid)  -- no such child: `ChildNotFound` (the harness files it with `ChildNotValid`); before the repair `remove(None)` crashed
   | some c => remove p c h
 
 def listOf (h : Heap) (p : Nat) : List Nat := match h[p]? with | some n => n.list | none => []
